@@ -457,6 +457,7 @@ def run(chk):
     _emits_rule(chk, prog, tu)
     _accumfast_rule(chk, fn)
     _endincl_rule(chk, fn)
+    _subjectarg_rule(chk, prog, tu)
     _grammarcache_rule(chk, prog, tu)
     _endpos_rule(chk, prog, tu)
     _capscope_rule(chk, fn)
@@ -781,3 +782,72 @@ def _endincl_rule(chk, fn):
                           "the empty string at the end (-1, the last line without a newline) is not found, unlike in its sibling rules" % (
                               cases[0], cmpn[0].text()))
     chk.floor(rule, 3, n)
+
+
+def _subjectarg_rule(chk, prog, tu):
+    """The matcher works on a raw view of the subject's bytes; grammar functions (cmt, replace functions) run in
+    between and could resize a buffer subject.  The guard against that compares the buffer registered in the match
+    state with the view - so the buffer registered has to be the very argument the view was taken from.  peg/replace
+    and peg/replace-all carry the subject one position later than peg/match."""
+    rule = "C12-SUBJECTARG"
+    chk.rule(rule, "peg_cfun_init registers for the modified-during-match guard the same argument whose bytes it matches, for both argument layouts")
+    fn = prog.need_func("peg_cfun_init", tu)
+    chk.analysed(fn)
+    flag = fn.params[2]["n"] if len(fn.params) > 2 else "get_replace"
+
+    def ev(e, g):
+        e = strip_casts(e)
+        if e is None:
+            return None
+        if e.v is not None:
+            return e.v
+        if is_ref(e) and e.name == flag:
+            return g
+        if e.k == "cond" and len(e.kids) == 3:
+            c = ev(e.kids[0], g)
+            return None if c is None else ev(e.kids[1] if c else e.kids[2], g)
+        if e.k == "paren" and e.kids:
+            return ev(e.kids[0], g)
+        return None
+    # index of the byte view per layout
+    view = {}
+    for c in fn.calls("janet_getbytes"):
+        idx = strip_casts(c.args[1])
+        q, br = c.parent, None
+        while q is not None:
+            if q.k == "if" and any(is_ref(y) and y.name == flag for y in q.kids[0].walk()):
+                br = 1 if any(z is c for z in q.kids[1].walk()) else 0
+                c0, t0 = flow.strip_not(q.kids[0], True) if hasattr(flow, "strip_not") else (q.kids[0], True)
+                if not t0:
+                    br = 1 - br
+                break
+            q = q.parent
+        for g in ((br,) if br is not None else (0, 1)):
+            v = ev(idx, g)
+            if v is not None:
+                view[g] = v
+    subj = {}
+    for x in fn.nodes:
+        if x.k == "asg" and x.kids[0].k == "mem" and x.kids[0].field == "subject":
+            srcs = [y for y in x.kids[1].walk() if is_ref(y)]
+            for y in srcs:
+                d = next((d for d in fn.nodes if d.k == "vardecl" and d.name == y.name and d.kids), None)
+                e = d.kids[0] if d is not None else None
+                sub = next((z for z in (e.walk() if e is not None else x.kids[1].walk()) if z.k == "sub" and is_ref(strip_casts(z.kids[0]), "argv")), None)
+                if sub is not None:
+                    for g in (0, 1):
+                        v = ev(sub.kids[1], g)
+                        if v is not None:
+                            subj[g] = v
+    if len(view) < 2 or len(subj) < 2:
+        raise AnalysisBroken("peg_cfun_init: subject / byte-view argument indices not recognised (%s, %s)" % (view, subj))
+    for g in (0, 1):
+        chk.instance(rule)
+        if view[g] == subj[g]:
+            chk.ok(rule, "%s layout: bytes and guard both from argv[%d]" % ("replace" if g else "match", view[g]))
+        else:
+            chk.violation(rule, "peg.c", "peg_cfun_init", "layout:%d" % g, fn.loc,
+                          "for the %s entry points the bytes matched come from argv[%d] but the buffer registered for the "
+                          "modified-during-match guard is argv[%d]: the guard is off, and a grammar function that grows the subject buffer makes "
+                          "the matcher read freed memory" % ("peg/replace, peg/replace-all" if g else "peg/match, peg/find, peg/find-all", view[g], subj[g]))
+    chk.floor(rule, 2)
